@@ -237,7 +237,7 @@ def bs_post(st0, st1, a, res):
 
 
 TH_BEFORE_STEP = FSpec("TradingHaltRule.hooked_before_step_for_market", pre=bs_pre, post=bs_post, props=("C16", "C09"),
-                       modifies=lambda st, a: th_common_modifies(st, a, a["market"].term),
+                       modifies=lambda st, a: [m_ for m_ in th_common_modifies(st, a, a["market"].term) if m_[0] != "f:TradingHaltRule.halted_session"],      # the record of the halted session is kept: other targets of the same rule still have to resume
                        raises={"AssertionError": lambda st, a: z3.And(st.read(a["simulator"], "current_session").none, is_target(st, "TradingHaltRule", a["self"], a["market"]),
                                                                       st.read(a["market"], "time").term > st.read(a["self"], "halting_time_started").term + st.read(a["self"], "halting_time_length").term)})
 
